@@ -125,6 +125,14 @@ pub(super) fn optimize(
     return None;
   }
   let only_relevant_induction_loop_variables = relevant_derived_induction_variables[0];
+  // With a zero or negative multiplier the derived variable does not grow with the counter, so a
+  // guard on it cannot replace the guard on the counter.
+  if matches!(
+    only_relevant_induction_loop_variables.multiplier,
+    PotentialLoopInvariantExpression::Int(m) if m <= 0
+  ) {
+    return None;
+  }
   let added_invariant_expression_in_loop = merge_invariant_multiplication_for_loop_optimization(
     &optimizable_while_loop.basic_induction_variable_with_loop_guard.increment_amount,
     &only_relevant_induction_loop_variables.multiplier,
